@@ -104,6 +104,19 @@ def h_fk_fixed_point(w):
         # the fsolve route re-validates six times; the constraint predicates of a symbolic pose fork 40+ paths that all
         # end in the same obligations.  Validation interplay is C10's subject: switched off here (symbolic runs only).
         sp.validation_settings = [False, False, False, False]
+    if state == 'plate_arg':
+        # FK with an explicit (different) fixed-plate pose: the platform is re-based there, relative pose and lengths kept
+        nt, Tn = P.sym_pose(w, 'N') if w.params.get('new_base', 'sym') == 'sym' else (None, A.base_matrix(w, w.params['new_base']))
+        top, _ = sp.FK(req.reshape(-1).copy(), plate_pos=tm(Tn.copy()), protect=True, fk_mode=mode)
+        Texp = Tn @ H.T_inv(w, Bm) @ Tgoal
+        w.prove_close(top.gTM(), Texp, '1e-6', 'FK(L, plate_pos=B\') returns B\' * inv(B) * P (fk_mode %d)' % mode)
+        w.prove_close(sp.getBottomT().gTM(), Tn, '1e-6', 'FK(L, plate_pos=B\') publishes the requested base')
+        w.prove_close(sp.getTopT().gTM(), Texp, '1e-6', 'FK(L, plate_pos=B\') publishes the re-based top pose')
+        w.prove_close(sp.getLens().reshape(-1), req.reshape(-1), '1e-6', 'lengths reported after FK(L, plate_pos=B\') are the requested ones')
+        bp, tp = P.joint_points(w, Tn, g['bj']), P.joint_points(w, Texp, g['tj'])
+        w.prove_close(sp.getTopJoints(), w.array(tp).T, '1e-6', 'top joints after FK(L, plate_pos=B\')')
+        w.prove_close(sp.getBottomJoints(), w.array(bp).T, '1e-6', 'bottom joints after FK(L, plate_pos=B\')')
+        return
     top, _ = sp.FK(req.reshape(-1).copy(), protect=True, fk_mode=mode)
     w.prove_close(top.gTM(), Tgoal, '1e-6', 'FK(IK(P)) started at P returns P (%s platform, fk_mode %d)' % (state, mode))
     w.prove_close(sp.getLens().reshape(-1), req.reshape(-1), '1e-6', 'lengths reported after FK are the requested ones')
@@ -186,6 +199,17 @@ def h_concrete(w):
     b, t = sp.getBottomJoints(), sp.getTopJoints()
     w.prove_close(lens.reshape(-1), np.linalg.norm(t - b, axis=0), 1e-9, 'IK lengths = joint distances')
     req = lens.copy()
+    if w.real('plate_arg', 0, 1) > 0.6:
+        # FK with an explicit fixed-plate pose different from the current base
+        nb = tm([w.real('nx', -2, 2), w.real('ny', -2, 2), w.real('nz', -1, 1), w.real('na', -1.8, 1.8), w.real('nb', -1.8, 1.8), w.real('nc', -1.8, 1.8)])
+        rel_goal = np.linalg.inv(sp.getBottomT().gTM()) @ goal.gTM()
+        for mode in (1, 0):
+            top, ok = sp.FK(req.reshape(-1).copy(), plate_pos=nb.copy(), fk_mode=mode)
+            w.prove_close(top.gTM(), nb.gTM() @ rel_goal, 1e-3 * H0, 'FK(L, plate_pos=B\') returns B\' * relative pose (fk_mode %d)' % mode)
+            w.prove_close(sp.getTopT().gTM(), nb.gTM() @ rel_goal, 1e-3 * H0, 'FK(L, plate_pos=B\') publishes the re-based top pose (fk_mode %d)' % mode)
+            w.prove_close(sp.getBottomT().gTM(), nb.gTM(), 1e-9, 'FK(L, plate_pos=B\') publishes the requested base (fk_mode %d)' % mode)
+            w.prove_close(sp.getLens().reshape(-1), req.reshape(-1), 1e-3 * H0, 'lengths after FK(L, plate_pos=B\') are the requested ones (fk_mode %d)' % mode)
+        return
     for mode in (1, 0):
         sp.IK(sp.getBottomT() @ neutral_rel, protect=True)          # back to neutral
         top, ok = sp.FK(req.reshape(-1).copy(), fk_mode=mode)
@@ -205,6 +229,8 @@ def cases(tier, seed):
                 pr['move_to'] = 'TR'      # rotated base + fsolve route: polynomial blow-up (> 400 s) in Exp of the re-derived relative pose; translated base instead (rotated bases: mode 1 symbolically, mode 0 by concrete sampling)
             cs.append(Case('fk_fixed_point_%s_mode%d' % (state, mode), h_fk_fixed_point, params=pr))
     cs.append(Case('fk_fixed_point_fresh_B1', h_fk_fixed_point, params=dict(state='fresh', fk_mode=1, base='B1')))
+    cs.append(Case('fk_fixed_point_plate_arg_mode1', h_fk_fixed_point, params=dict(state='plate_arg', fk_mode=1, base='I', new_base='B2')))
+    cs.append(Case('fk_fixed_point_plate_arg_B1_mode1', h_fk_fixed_point, params=dict(state='plate_arg', fk_mode=1, base='B1', new_base='B3')))
     cs.append(Case('kernel_stop_criterion', h_kernel_stop, concrete_samples=0))
     cs.append(Case('newSP_full_solvers', h_concrete, concrete_only=True, concrete_samples=int(__import__('os').environ.get('C09_SAMPLES', '1500' if tier == 'quick' else '10000'))))
     return cs
